@@ -16,6 +16,9 @@ CFGS = {
     '123':  ('MC_VoteSet_123.cfg',  {'N': 3, 'Power': [1, 2, 3], 'Blocks': ['nil', 'A', 'B'], 'Peers': ['p1']}),
     '3':    ('MC_VoteSet_3.cfg',    {'N': 1, 'Power': [3], 'Blocks': ['nil', 'A', 'B'], 'Peers': ['p1']}),
     '12':   ('MC_VoteSet_12.cfg',   {'N': 2, 'Power': [1, 2], 'Blocks': ['nil', 'A', 'B'], 'Peers': ['p1', 'p2']}),
+    # total voting power = 2 (mod 3): the 2/3 boundary is not a multiple of the arithmetic used
+    '122':  ('MC_VoteSet_122.cfg',  {'N': 3, 'Power': [1, 2, 2], 'Blocks': ['nil', 'A', 'B'], 'Peers': ['p1', 'p2']}),
+    '11111': ('MC_VoteSet_11111.cfg', {'N': 5, 'Power': [1, 1, 1, 1, 1], 'Blocks': ['nil', 'A'], 'Peers': ['p1']}),
 }
 
 
@@ -40,10 +43,10 @@ def run(ctx, replay=None):
         return
 
     quick = ctx.tier == 'quick'
-    exhaustive = ['q', '112'] if quick else ['q', '112', '123', '3', '12', '1111']
+    exhaustive = ['q', '122'] if quick else ['q', '112', '122', '123', '3', '12', '1111', '11111']
     graph_cfgs = ['q'] if quick else ['q', '3', '12']
-    sim_cfgs = [('1111', 150, 16), ('112', 100, 14), ('3', 20, 8)] if quick else \
-               [('1111', 1500, 18), ('112', 800, 16), ('123', 800, 16), ('12', 300, 12), ('3', 50, 8)]
+    sim_cfgs = [('1111', 120, 16), ('112', 80, 14), ('122', 80, 14), ('11111', 80, 16), ('3', 20, 8)] if quick else \
+               [('1111', 1500, 18), ('112', 800, 16), ('122', 800, 16), ('11111', 800, 18), ('123', 800, 16), ('12', 300, 12), ('3', 50, 8)]
     all_traces = []
     for name in exhaustive:
         cfgfile, tcfg = CFGS[name]
